@@ -1363,7 +1363,10 @@ def varint_gen():
 
 
 def varint_tie_modules():
-    return ["Ufw.Tie.VarintLoops.Common"] + [m for f, m in VARINT_TIE.items() if VARINT_STATUS.get(f) == "translated"]
+    mods = ["Ufw.Tie.VarintLoops.Common"] + [m for f, m in VARINT_TIE.items() if VARINT_STATUS.get(f) == "translated"]
+    if all(VARINT_STATUS.get(f) == "translated" for f in ("varint_encode", "varint_decode", "varint_done")):
+        mods.append("Ufw.Tie.VarintLoops.EndToEnd")   # the round trip of the property theorems, over the translated C
+    return mods
 
 
 # ---------------------------------------------------------------------------------------------------------------
@@ -1415,7 +1418,10 @@ def slip_gen():
 
 
 def slip_tie_modules():
-    return ["Ufw.Tie.SlipFns.Common"] + [m for f, m in SLIP_TIE.items() if SLIP_STATUS.get(f) == "translated"]
+    mods = ["Ufw.Tie.SlipFns.Common"] + [m for f, m in SLIP_TIE.items() if SLIP_STATUS.get(f) == "translated"]
+    if SLIP_STATUS.get("rfc1055_encode") == "translated" and SLIP_STATUS.get("rfc1055_decode") == "translated":
+        mods.append("Ufw.Tie.SlipFns.EndToEnd")       # the property theorems carried over to the translated C
+    return mods
 
 
 # ---------------------------------------------------------------------------------------------------------------
